@@ -212,7 +212,7 @@ def rule_A(ctx):
             every = nm if every is None else every & nm
         n_acc = 0
         for o in outs:
-            acc = [e for e in o.state.events if (e.kind == 'assign' and e.name not in every and e.name in assigned) or
+            acc = [e for e in o.state.events if (e.kind == 'assign' and e.name in assigned and e.name in pst.env) or
                    (e.kind == 'call' and e.name == 'append')]
             if not acc:
                 continue
